@@ -137,6 +137,7 @@ class Interp:
         self.raise_sinks: List[list] = []
         self.time = 0
         self.newobj = 0
+        self._keepalive = []
         self.unmodelled = set()
         self.unresolved = set()
         self.composites = self._scan_composites()
@@ -193,12 +194,21 @@ class Interp:
         return St({}, {c.name: c.init(self) for c in self.components})
 
     # symbolic store forwarding for scalar fields: atoms always denote entry-time values
+    def val_id(self, v: Val):
+        """identity of the value `v` was copied from (through array/asarray/copy): see tag 'val-of'."""
+        for t in v.tags:
+            if isinstance(t, tuple) and t[0] == "val-of":
+                return t[1]
+        self._keepalive.append(v)
+        return id(v)
+
     def _symstore(self, st):
         return st.comp.setdefault("__symstore", {})
 
     def copy_state(self, st: St):
         comp = {c.name: c.copy(st.comp[c.name]) for c in self.components}
         comp["__symstore"] = dict(st.comp.get("__symstore", {}))
+        comp["__shallow"] = dict(st.comp.get("__shallow", {}))
         return St(dict(st.env), comp)
 
     def join_states(self, a: Optional[St], b: Optional[St]) -> Optional[St]:
@@ -219,6 +229,14 @@ class Interp:
             x, y = sa.get(k, "entry"), sb.get(k, "entry")
             ss[k] = x if (x is not None and not isinstance(x, str) and x == y) else (x if x == y else None)
         comp["__symstore"] = ss
+        ha, hb = a.comp.get("__shallow", {}), b.comp.get("__shallow", {})
+        sh = {}
+        for k in set(ha) | set(hb):
+            if k in ha and k in hb:
+                sh[k] = (ha[k][0], ha[k][1] & hb[k][1])   # shared unless rebound on both paths
+            else:
+                sh[k] = ha.get(k) or hb.get(k)
+        comp["__shallow"] = sh
         return St(env, comp)
 
     # ------------------------------------------------------------------ entry
@@ -236,7 +254,7 @@ class Interp:
         scalar = kind in ("float", "int", "bool", "str")
         v = Val(dim=dim, kind=kind, al=frozenset() if scalar else frozenset([loc]), deps=frozenset([loc]),
                 pdeps=frozenset([name]), guardp=frozenset([name]), born=0,
-                tags=frozenset() if scalar else frozenset(["param-root"]))
+                tags=frozenset(["raw-param"]) if scalar else frozenset(["param-root", "raw-param"]))
         if kind in ("float", "int"):
             v.sym = Poly.atom(f"param.{name}")
         return v
@@ -396,6 +414,11 @@ class Interp:
         if isinstance(t, ast.Name):
             cur = self.load_name(t.id, st, t)
             res = self.binop(s.op, cur, rhs, st, s)
+            if "maybe-int" in cur.tags and cur.kind == "arr":
+                if opname == "Div" or (opname in ("Add", "Sub", "Mult") and rhs.is_number_const() and isinstance(rhs.const, float)
+                                       and not float(rhs.const).is_integer()):
+                    self.emit(st, "int-inplace", s, op=opname, rhs=rhs, target=t.id, cur=cur)
+                res = res.copy(tags=res.tags | {"maybe-int"})
             if cur.al and cur.kind not in ("int", "float", "bool", "str", "none"):
                 # numpy in-place on a view / the object itself
                 self.write_inplace(cur, opname, None, rhs, st, s, cur_val=cur)
@@ -813,6 +836,9 @@ class Interp:
         if v.obj is not None and v.obj.oid.startswith("new#"):
             # composite: the fresh object becomes part of this object
             pass
+        sh = st.comp.get("__shallow")
+        if sh and obj.oid in sh:
+            sh[obj.oid] = (sh[obj.oid][0], sh[obj.oid][1] | {attr})
         if ATTR.get(attr, (None, None))[1] in ("float", "int"):
             self._symstore(st)[(obj.oid, attr)] = v.sym
         self.emit(st, "write", node, loc=(obj.oid, attr), objcls=obj.cls, mode="rebind", op="set", sub=None,
@@ -920,6 +946,12 @@ class Interp:
             return self.global_val(r, attr)
         if base.kind == "super":
             cls, selfv = base.extra
+            if selfv is None or selfv.obj is None:
+                # super() inside a classmethod / staticmethod: resolve against the defining class
+                for c in (cls.mro[1:] if cls is not None else []):
+                    if attr in c.methods:
+                        return Val(kind="bound", fn=c.methods[attr], base=Val(kind="class", extra=cls, dim=D0), dim=D0)
+                return Val()
             start = selfv.obj.cls.mro.index(cls) + 1 if cls in selfv.obj.cls.mro else 1
             for c in selfv.obj.cls.mro[start:]:
                 if attr in c.methods:
@@ -947,6 +979,9 @@ class Interp:
                     v = self.ev(m[1], St(env, st.comp))
                 finally:
                     self.frames.pop()
+                if v.kind in ("dict", "list", "set"):
+                    # a mutable container defined in the class body is one object shared by every instance
+                    return v.copy(name=attr, al=frozenset([(f"class:{m[2].name}", attr)]))
                 return v.copy(name=attr)
             return Val()
         if base.obj is not None:
@@ -997,7 +1032,13 @@ class Interp:
         if comp is not None:
             return Val(kind="obj", obj=ObjRef(comp, f"{obj.oid}.{attr}"), al=frozenset([loc]), deps=frozenset([loc]), born=0)
         scalar = kind in ("float", "int", "bool")
-        v = Val(dim=dim, kind=kind, al=frozenset() if scalar else frozenset([loc]), deps=frozenset([loc]), born=self.time)
+        locs = [loc]
+        sh = st.comp.get("__shallow")
+        o = obj.oid
+        while sh and o in sh and attr not in sh[o][1]:
+            o = sh[o][0]
+            locs.append((o, attr))
+        v = Val(dim=dim, kind=kind, al=frozenset() if scalar else frozenset(locs), deps=frozenset(locs), born=self.time)
         if kind == "float":
             ss = st.comp.get("__symstore", {})
             if loc in ss:
@@ -1024,6 +1065,18 @@ class Interp:
         base = self.ev(n.value, st)
         idx = self.ev_index(n.slice, st)
         return self.subscript(base, idx, n, st)
+
+    @staticmethod
+    def _is_reshape_index(idx: Val):
+        def one(i):
+            if i.kind == "none" or (i.has_const() and (i.const is Ellipsis or i.const is None)):
+                return True
+            if i.kind == "slice" and i.extra is not None:
+                sl = i.extra
+                return sl.lower is None and sl.upper is None and sl.step is None
+            return False
+        items = idx.items if idx.kind == "indextuple" else (idx,)
+        return bool(items) and all(one(i) for i in items)
 
     @staticmethod
     def _is_view_index(idx: Val):
@@ -1075,7 +1128,9 @@ class Interp:
             raise AbortPath()
         if base.kind in ("dict",):
             e = base.elem if base.elem is not None else Val()
-            return e.copy(deps=e.deps | idx.deps | base.deps, pdeps=e.pdeps | idx.pdeps | base.pdeps)
+            # provenance of a lookup mapping[key] (KeyError for a missing key)
+            tg = frozenset([("item-of", tuple(sorted(base.al)), self.val_id(idx))]) if base.al else frozenset()
+            return e.copy(deps=e.deps | idx.deps | base.deps, pdeps=e.pdeps | idx.pdeps | base.pdeps, tags=e.tags | tg)
         if base.kind in ("list", "tuple", "set", "gen", "idxlist") and base.kind != "arr":
             if idx.kind == "slice":
                 return base
@@ -1105,6 +1160,11 @@ class Interp:
             tags = tags | {("reorder-of", tuple(sorted(src)), tuple(sorted(idx.deps)))}
         elif not view and src:
             tags = tags | {("copy-of", tuple(sorted(src)))}
+        if "maybe-int" in base.tags and kind == "arr":
+            tags = tags | {"maybe-int"}
+        if self._is_reshape_index(idx):
+            # x[None, :], x[np.newaxis], x[...]: the same values with another shape
+            tags = tags | frozenset(t for t in base.tags if isinstance(t, tuple) and t[0] in ("getter-of", "saved-centroid", "val-of"))
         v = Val(dim=dim, kind=kind, al=base.al if view else frozenset(), deps=base.deps | idx.deps,
                 pdeps=base.pdeps | idx.pdeps, tags=tags, born=base.born if view else self.time)
         if view and base.kind == "arr":
@@ -1144,8 +1204,9 @@ class Interp:
             return Val(dim=D0, kind="idx", al=it.al, deps=it.deps, pdeps=it.pdeps, tags=frozenset(["1d"]), born=it.born)
         if it.kind == "idx":
             k = "int" if ("1d" in it.tags) else "idx"
+            keep = frozenset(t for t in it.tags if t == "where-index" or (isinstance(t, tuple) and t and t[0] == "index-from"))
             return Val(dim=D0, kind=k, al=it.al if k == "idx" else frozenset(), deps=it.deps, pdeps=it.pdeps,
-                       tags=frozenset(["1d"]) if k == "idx" else frozenset(), born=it.born)
+                       tags=(frozenset(["1d"]) if k == "idx" else frozenset()) | keep, born=it.born)
         if it.kind == "arr":
             d = it.dim
             if d[0] == "COLS" and d[2] >= 1:
@@ -1174,6 +1235,8 @@ class Interp:
 
     def binop(self, op, l: Val, r: Val, st, node) -> Val:
         self._rawuse(st, node, l, r)
+        if isinstance(op, ast.Sub) and l.kind in ("arr", "unknown") and r.kind in ("arr", "unknown") and l.deps:
+            self.emit(st, "sub", node, left=l, right=r)
         out = self._binop(op, l, r, st, node)
         bt = batch_tag(l, r)
         if bt and out.kind not in ("str",):
@@ -1273,6 +1336,12 @@ class Interp:
             src = l if l.al else r
             if src.kind == "arr":
                 tags = frozenset([("translate-of", tuple(sorted(src.al)))])
+        if isinstance(op, ast.Sub) and l.obj is None:
+            # `target - <current centroid>`: the displacement that moves the centroid onto `target`
+            cen = {loc[0] for loc in r.al if loc[1] == "_centroid"} | \
+                  {t[2] for t in r.tags if isinstance(t, tuple) and t[0] == "getter-of" and t[1] in ("centroid", "center")}
+            if cen:
+                tags = tags | {("shift-to", self.val_id(l), tuple(sorted(cen)))}
         return Val(dim=dim, kind=kind, deps=deps, pdeps=pdeps, sym=sym, guardp=guardp, born=now, tags=tags, extra=extra)
 
     def _unify_additive(self, l: Val, r: Val, st, node, what):
@@ -1556,6 +1625,13 @@ class Interp:
         return self.call_val(f, args, kwargs, st, n)
 
     def call_val(self, f: Val, args, kwargs, st, node) -> Val:
+        if f.kind == "func" and f.fn.name in self.config.get("opaque_functions", ()):
+            deps, pdeps = frozenset(), frozenset()
+            for a in list(args) + list(kwargs.values()):
+                deps |= a.deps
+                pdeps |= a.pdeps
+            self.emit(st, "opaque-call", node, callee=f.fn, args=args, kwargs=kwargs)
+            return Val(kind="unknown", dim=TOP, deps=deps, pdeps=pdeps, born=self.time, tags=frozenset(["opaque", ("ret", f.fn.name)]))
         if f.kind == "func" and f.fn.module.name.startswith(OPAQUE_MODULES):
             deps = frozenset()
             for a in list(args) + list(kwargs.values()):
@@ -1593,6 +1669,12 @@ class Interp:
                 r.tags = r.tags | extra_t
                 if r.items is not None:
                     r.items = tuple(i.copy(tags=i.tags | extra_t) if not i.has_const() else i for i in r.items)
+            # `out=<name>`: the named array now holds the result (same storage as before)
+            for kw in getattr(node, "keywords", []):
+                if kw.arg == "out" and isinstance(kw.value, ast.Name) and kw.value.id in st.env and "out" in kwargs:
+                    old = kwargs["out"]
+                    st.env[kw.value.id] = r.copy(al=old.al, born=old.born, name=old.name)
+                    r = st.env[kw.value.id]
             return r
         if f.kind == "arrmethod":
             self._rawuse(st, node, f.base)
@@ -1715,7 +1797,8 @@ class Interp:
         if result is None:
             result = vconst(None)
         if role is not None and role[0] == "getter" and not result.has_const():
-            result = result.copy(tags=result.tags | {("getter", role[1])})
+            result = result.copy(tags=result.tags | {("getter", role[1])} | (
+                {("getter-of", role[1], bound_self.obj.oid)} if bound_self is not None and bound_self.obj is not None else set()))
         if fn.name not in ("<lambda>",) and role is None:
             result = result.copy(tags=result.tags | {("ret", fn.name)})
             if bound_self is not None and not result.has_const() and not frame.is_gen:
